@@ -5,7 +5,8 @@ Part A  pylogix 1.1.6 (an independent EtherNet/IP client; shares no code with cp
         over  state = (tag store, connected?, tags whose type pylogix has cached)  -- the third component is the only
         client-side state that changes what pylogix puts on the wire (a first access is preceded by a one-element probe
         read); sequence counters, sender contexts, session handles and connection ids are abstracted (they only grow) and
-        that abstraction is cross-checked by running every API-call sequence of length <= 3 from a fresh system.
+        that abstraction is cross-checked by running every API-call sequence of length <= 3 from a fresh system -- with
+        pylogix' sequence counter started just below 0x8000 or 0x10000 (a long-lived session gets there).
         Every state is re-established from a fresh PLC object + fresh TCP session by real requests only.
         Oracle (from the statement + pylogix' documented Response): a dict-of-lists array model gives the value / the
         status string of every call; Close leaves no Connection_Manager.forwards entry, no UCMM session and a finished
@@ -16,7 +17,7 @@ Part A  pylogix 1.1.6 (an independent EtherNet/IP client; shares no code with cp
 Part B  the reference codec mc/refcip.py (struct only) is the client: every request of the C03 alphabet is encoded byte by
         byte and sent through every transport -- SendRRData bare, SendRRData + Unconnected Send wrapper (with and without
         a route path), SendUnitData over a small and over a large Forward Open connection that are open at the same time
-        (own, increasing sequence counts), and as a member of a Multiple Service Packet (unconnected and connected) --
+        (own sequence counts, starting just below 0x8000 resp. 0x10000 so that both the sign bit and the wrap-around are crossed), and as a member of a Multiple Service Packet (unconnected and connected) --
         from every state of the closed tag-store graph.  Replies must be accepted by refcip.decode_reply_frame, echo
         session / context / connection id / sequence, and are judged by the array model mc.refmodel.TagModel (values,
         statuses, effect on the store).  Every state runs one complete life cycle Register -> Forward Open (small) ->
@@ -283,6 +284,7 @@ class ARig:
                      if self.big_n else {})
         self.env = None
         self.comm = None
+        self.seq_start = None        # where a fresh pylogix client starts its connected sequence count (None: pylogix' own start)
         self.handles = {}
         self.conn_ids = {}
         self.to_ids = {}
@@ -336,6 +338,8 @@ class ARig:
         self.sim.rnd.counter = itertools.count(0x1000)
         self.env = PE.Env(self.sim)
         self.comm = self.env.plc(connection_size=self.connsize)
+        if self.seq_start is not None:
+            self.comm.conn._sequence_counter = self.seq_start      # a 16-bit counter the client owns: any start is legal
         if self.cfgkey[1].endswith("r"):
             self.comm.Route = [(1, 3), (1, 0)]          # backplane slot 3 (a bridge), then its backplane slot 0: two port segments
         self.handles = {}
@@ -716,6 +720,9 @@ def seq_shard(acc, item, tier, seed):
     rig, _ = get_arig(cfgkey)
     alpha = seq_alphabet(cfgkey, alpha_name)
     root = a_initial(cfgkey)
+    # the sequence count of a long-lived session passes 0x8000 and wraps at 0x10000: the call sequences start just below one of the
+    # two (the state search above runs with pylogix' own start)
+    rig.seq_start = 0x7FFE if cfgkey[0] in ("DINT", "REAL", "LINT", "SINT", "UINT", "ULINT") else 0xFFFE
     for rest in itertools.product(alpha, repeat=depth - 1):
         seq = (alpha[first],) + rest
         sb = rig.seat(root)
@@ -734,6 +741,7 @@ def seq_shard(acc, item, tier, seed):
                 break
         acc.ntc()
         acc.count("sequences")
+    rig.seq_start = None
     acc.sample({"part": "S", "cfg": cfgkey, "ops": (alpha[first],) + tuple(alpha[:depth - 1])})
 
 
@@ -906,7 +914,9 @@ class BRig:
         if any(c["O_T_connection_ID"] == x["id"] for x in self.conns.values()):
             bad.append(("forward-open-duplicate-id", "Forward Open (%s) was given the O->T connection id 0x%x of an open connection"
                         % (name, c["O_T_connection_ID"])))
-        self.conns[name] = {"id": c["O_T_connection_ID"], "to": to_id, "serial": serial, "seq": 0, "name": name}
+        self.conns[name] = {"id": c["O_T_connection_ID"], "to": to_id, "serial": serial, "name": name,
+                            # the client owns the 16-bit sequence count: the two connections start just below 0x8000 and 0x10000
+                            "seq": 0xFFFB if large else 0x7FFB}
         want_keys = sorted(((self.peer[0], self.peer[1], x["id"]) for x in self.conns.values()), key=repr)
         if len(self.fw_keys()) != len(want_keys):
             bad.append(("forwards-table", "after Forward Open (%s) Connection_Manager.forwards has %r, open connections %r"
@@ -943,9 +953,13 @@ class BRig:
         if self.session is None or not self.session.alive or set(self.conns) != {"small", "large"}:
             return [("life-cycle", "session not in the expected state for shutdown: alive=%r conns=%r"
                      % (self.session is not None and self.session.alive, sorted(self.conns)))]
-        bad += self.forward_close("small")
-        bad += self.run(probe, "cl")[0]
-        bad += self.forward_close("large")
+        for step in (lambda: self.forward_close("small"), lambda: self.run(probe, "cl")[0], lambda: self.forward_close("large")):
+            if not self.session.alive:
+                break
+            bad += step()
+        if not self.session.alive:
+            return bad + [("session-ended", "the server ended the session during Forward Close / probe / Forward Close (exception: %r)"
+                           % (self.session.exc,))]
         self.session.feed(R.unregister(self.handle, context=self.context()))
         if self.session.alive:
             # a server may also wait for the peer to close after Unregister
